@@ -26,7 +26,7 @@ class MachineryError(Exception):
     """The machinery cannot decide (exit 2); never a silent pass, never a VIOLATION."""
 
 
-FACTS_VERSION = 2      # bump when the driver's output changes: older cached fact files are then ignored
+FACTS_VERSION = 3      # bump when the driver's output changes: older cached fact files are then ignored
 
 
 def repo_root():
@@ -62,11 +62,28 @@ def _sysroot_lib():
     return os.path.join(out.stdout.strip(), 'lib')
 
 
+def _ensure_driver():
+    """Build the driver when it is missing or older than its source (normally done by setup.sh)."""
+    src = os.path.join(VERIF, 'driver', 'src', 'main.rs')
+    if os.path.exists(DRIVER) and os.path.getmtime(DRIVER) >= os.path.getmtime(src):
+        return
+    import fcntl
+    os.makedirs(CACHE, exist_ok=True)
+    with open(os.path.join(CACHE, 'driver.lock'), 'w') as lk:
+        fcntl.flock(lk, fcntl.LOCK_EX)
+        if os.path.exists(DRIVER) and os.path.getmtime(DRIVER) >= os.path.getmtime(src):
+            return
+        p = subprocess.run(['cargo', 'build', '--release', '--offline'], cwd=os.path.join(VERIF, 'driver'), capture_output=True, text=True,
+                           env=dict(os.environ, CARGO_NET_OFFLINE='true'))
+        if p.returncode != 0 or not os.path.exists(DRIVER):
+            raise MachineryError('driver does not build (run ./setup.sh): ' + p.stderr.strip()[-400:])
+        os.utime(DRIVER, None)
+
+
 def extract(config='full', root=None, quiet=True):
     """Return (facts dict, info dict).  Uses the cache when the tree hash matches."""
     root = root or repo_root()
-    if not os.path.exists(DRIVER):
-        raise MachineryError('driver not built: run setup (./setup.sh)')
+    _ensure_driver()
     os.makedirs(os.path.join(CACHE, 'facts'), exist_ok=True)
     th = tree_hash(root)
     fpath = os.path.join(CACHE, 'facts', '%s.%s.v%d.json' % (th, config, FACTS_VERSION))
